@@ -506,9 +506,10 @@ def fails(ops: list, oracle: FreshOracle, tries: int = 1):
     return None
 
 
-def shrink(ops: list, oracle: FreshOracle) -> list:
+def shrink(ops: list, oracle: FreshOracle, deadline: float) -> list:
     """Delta-debugging of the operations before the probe, keeping the failure (a world operation that the rest
-    needs cannot be removed: the candidate then errors and is discarded). Chunks first, single operations last."""
+    needs cannot be removed: the candidate then errors and is discarded). Chunks first, single operations last;
+    stops at `deadline` with what it has (still a failing history)."""
     def still_fails(cands):
         """first (shortest) candidate whose last operation still answers differently from a fresh interpreter"""
         uniq, seen = [], set()
@@ -526,7 +527,7 @@ def shrink(ops: list, oracle: FreshOracle) -> list:
     cur = ops
     chunk = max(1, (len(cur) - 1) // 2)
     rounds = 0
-    while rounds < 30:
+    while rounds < 30 and time.time() < deadline:
         rounds += 1
         n = len(cur) - 1
         if n == 0:
@@ -644,7 +645,7 @@ CORPUS = [
 ]
 
 
-def explore(ck: Check, n: int, seed: int, n_table: int, n_truth: int) -> Explore:
+def explore(ck: Check, n: int, seed: int, n_table: int, n_truth: int, shrink_seconds: float = 90) -> Explore:
     """Forking a pristine interpreter is the expensive step, so true fresh-interpreter answers are bought where
     they decide something. Every query occurrence is keyed by (definitions it refers to, query). Its answers are
     collected from every history process it occurs in AND from two extra "batch" processes per group of queries
@@ -759,8 +760,9 @@ def explore(ck: Check, n: int, seed: int, n_table: int, n_truth: int) -> Explore
     t1 = time.time()
     keys_seen: set = set()
     guessed: set = set()
+    shrink_deadline = time.time() + shrink_seconds
     for k, i in bad:
-        if len(keys_seen) >= 6 or len(guessed) >= 7:
+        if len(keys_seen) >= 6 or len(guessed) >= 7 or (keys_seen and time.time() > shrink_deadline):
             break
         ops = histories[k][:i + 1]
         guess = classify(ops, results[k].get('stats', {}))
@@ -773,7 +775,7 @@ def explore(ck: Check, n: int, seed: int, n_table: int, n_truth: int) -> Explore
             small = ops
             hist_a, fresh_a, stats = results[k]['answers'][i], truth[json.dumps(fresh_ops(ops, i))], results[k].get('stats', {})
         else:
-            small = shrink(ops, oracle)
+            small = shrink(ops, oracle, max(shrink_deadline, time.time() + 20))
             again = fails(small, oracle, tries=3)
             if again is None:
                 small, again = ops, first
@@ -825,8 +827,12 @@ def main(ck: Check) -> int:
     quick = ck.tier == 'quick'
     ck.c14_extracted = xmemo.extract()
     proof = ck.prove(MODULE, PROP_FILE)
-    ex = explore(ck, n=60 if quick else 2000, seed=ck.seed, n_table=24 if quick else 400, n_truth=60 if quick else 2500)
-    ck.decide(proof, ex, deep_search=lambda: explore(ck, n=1200, seed=ck.seed + 1000, n_table=0, n_truth=1500))
+    ex = explore(ck, n=60 if quick else 1200, seed=ck.seed, n_table=24 if quick else 300, n_truth=60 if quick else 1500,
+                 shrink_seconds=90 if quick else 400)
+    xt = ck.c14_extracted
+    ex.extra['extracted_from_source'] = {'decorators': xt['decorators'], 'memoisation_sites': len(xt['sites']), 'tables': dict(xt['tables']),
+                                         'repr_hit_validated_by_eq': xt['repr_checked'], 'id_keyed_objects_pinned': xt['id_pinned']}
+    ck.decide(proof, ex, deep_search=lambda: explore(ck, n=700, seed=ck.seed + 1000, n_table=0, n_truth=900, shrink_seconds=300))
     partial = ['C14_fwdref_partial (referents remembered by forward-reference proxies are current only while no name is bound twice; '
                'C14_fwdref_counterexample)',
                'C14_repr_key_partial / C14_id_key_partial describe the code BEFORE the fixes C14_repr_key / C14_id_key; '
